@@ -96,7 +96,9 @@ Record Inv (st : dstate) : Prop := {
   i_sub : forall x, In x (d_post st) -> In x (d_vis st);
   i_owned : forall D, In D (d_post st) -> Owned st D;
   i_just : forall h, In h (d_vis st) -> h = root \/ Just (d_vis st) h;
-  i_reach : forall h, In h (d_vis st) -> reach (full_adj p) (NIntro root) (NIntro h) }.
+  i_reach : forall h, In h (d_vis st) -> reach (full_adj p) (NIntro root) (NIntro h);
+  i_range : forall h, In h (d_vis st) -> h < List.length (graphs p);
+  i_ownsrc : forall h o, lookup Nat.eqb h (d_own st) = Some o -> exists k D, In (k, h) (subs_of p o) /\ In D (d_vis st) /\ In o (trav D) }.
 Record Ext (st st' : dstate) : Prop := {
   e_post : exists new, d_post st' = d_post st ++ new;
   e_vis : forall x, In x (d_vis st) -> In x (d_vis st');
@@ -157,7 +159,10 @@ Proof.
       destruct (Nat.eqb_spec h0 h) as [->|]; [congruence|exact Ho]. }
     split; [|split; [|split]].
     + constructor; cbn [st2 d_vis d_post d_own]; try apply HI2.
-      intros D HD x k0 h0 Hx Hk0. destruct (i_owned _ HI2 D HD x k0 h0 Hx Hk0) as [A B]. split; [now apply (e_own _ _ HE3)|exact B].
+      * intros D HD x k0 h0 Hx Hk0. destruct (i_owned _ HI2 D HD x k0 h0 Hx Hk0) as [A B]. split; [now apply (e_own _ _ HE3)|exact B].
+      * intros h0 o Ho. rewrite lookup_cons_nat in Ho. destruct (Nat.eqb_spec h0 h) as [->|].
+        -- inversion Ho; subst. exists k, g. split; [exact Hkh|]. split; [apply HE2; exact Hgs|exact Hnd].
+        -- now apply (i_ownsrc _ HI2).
     + eapply Ext_trans; [exact HE1|]. eapply Ext_trans; eauto.
     + intros x. rewrite <- HG1, <- HG2. unfold gray. subst st2. cbn [d_vis d_post]. tauto.
     + intros k0 h0 H0. subst st2. cbn [d_own d_post] in *. apply in_app_or in H0. destruct H0 as [H0|[H0|[]]].
@@ -175,7 +180,9 @@ Proof.
     destruct (in_dec Nat.eq_dec g (d_post st')) as [|Hn]; [assumption|]. exfalso. specialize (Hgray g (conj Hv Hn)). lia.
   - assert (Hnv : ~ In g (d_vis st)).
     { intros Hc. apply (BuildFacts.mem_In Nat.eqb Nat.eqb_spec) in Hc. congruence. }
-    destruct (match gres (getg p g) with [] => true | _ => false end); [discriminate H|].
+    destruct (gres (getg p g)) as [|r0 rs] eqn:Egres; [discriminate H|].
+    assert (Hrange : g < List.length (graphs p)).
+    { destruct (le_lt_dec (List.length (graphs p)) g) as [Hle|]; [|assumption]. unfold getg in Egres. rewrite (nth_overflow _ _ Hle) in Egres. discriminate Egres. }
     set (st0 := {| d_vis := g :: d_vis st; d_post := d_post st; d_own := d_own st; d_all := d_all st;
                    d_claimed := d_claimed st; d_args := d_args st |}) in H.
     cbv zeta in H. apply bind_ok in H. destruct H as [[[[st1 all] claimed] used] [Hloop H]].
@@ -184,7 +191,9 @@ Proof.
       - intros x Hx. right. now apply HI.
       - intros h [<-|Hh]; [destruct Hjust as [->|Hj]; [now left|right; eapply Just_mono; [|exact Hj]; intros; now right]|].
         destruct (i_just _ HI h Hh) as [->|Hj]; [now left|right; eapply Just_mono; [|exact Hj]; intros; now right].
-      - intros h [<-|Hh]; [exact Hreach|now apply HI]. }
+      - intros h [<-|Hh]; [exact Hreach|now apply HI].
+      - intros h [<-|Hh]; [exact Hrange|now apply HI].
+      - intros h o Ho. destruct (i_ownsrc _ HI h o Ho) as [k [D [A [B C]]]]. exists k, D. split; [exact A|]. split; [now right|exact C]. }
     assert (HG0 : forall x, gray st0 x <-> (x = g \/ gray st x)).
     { intros x. unfold gray. cbn [st0 d_vis d_post]. split.
       - intros [[<-|Hx] Hn]; auto.
@@ -223,6 +232,8 @@ Proof.
         -- destruct (Hd1 x k h Hx Hk) as [A B]. split; [exact A|now apply before_snoc].
       * apply HI1.
       * apply HI1.
+      * apply HI1.
+      * apply HI1.
     + constructor; cbn [d_vis d_post d_own].
       * destruct (e_post _ _ HE1) as [n1 E1]. cbn [st0 d_post] in E1. exists (n1 ++ [g]). rewrite E1. now rewrite app_assoc.
       * intros x Hx. apply HE1. cbn [st0 d_vis]. now right.
@@ -237,7 +248,7 @@ Qed.
 
 (* ---------- what a successful top-level discovery gives ---------- *)
 Lemma Inv0 : Inv dstate0.
-Proof. constructor; cbn; [constructor|intros x []|intros D []|intros h []|intros h []]. Qed.
+Proof. constructor; cbn; [constructor|intros x []|intros D []|intros h []|intros h []|intros h []|intros h o H; discriminate H]. Qed.
 
 Hypothesis Hfuel : forall u, rank u < fuel_of p.
 
@@ -257,6 +268,25 @@ Proof.
     split; [apply HI|]. split; [exact Hin|]. split; [apply HI|]. split.
     + intros h Hh. destruct (i_just _ HI h (i_sub _ HI h Hh)) as [->|Hj]; [now left|right]. eapply Just_mono; [exact Hall|exact Hj].
     + intros h Hh. apply HI. now apply HI.
+Qed.
+
+(* ... and: the discovered graphs are graphs of the program (so there are at most |graphs p| of them), and every owner entry comes
+   from a subgraph attribute met in the traversal of a discovered graph *)
+Theorem discover_facts2 d : discover (fuel_of p) p dstate0 root = inl d ->
+  List.length (d_post d) <= List.length (graphs p) /\
+  (forall h o, lookup Nat.eqb h (d_own d) = Some o -> exists k D, In (k, h) (subs_of p o) /\ In D (d_post d) /\ In o (trav D)).
+Proof.
+  intros H. destruct (discover_spec _ dstate0 root d H Inv0) as [HI [_ [HG Hin]]].
+  - apply reach_refl.
+  - now left.
+  - intros x [[] _].
+  - assert (Hall : forall x, In x (d_vis d) -> In x (d_post d)).
+    { intros x Hx. destruct (in_dec Nat.eq_dec x (d_post d)) as [|Hn]; [assumption|]. exfalso.
+      assert (gray dstate0 x) as [[] _]. apply HG. now split. }
+    split.
+    + rewrite <- (seq_length (List.length (graphs p)) 0). apply NoDup_incl_length; [apply HI|].
+      intros h Hh. apply in_seq. pose proof (i_range _ HI h (i_sub _ HI h Hh)). lia.
+    + intros h o Ho. destruct (i_ownsrc _ HI h o Ho) as [k [D [A [B C]]]]. exists k, D. split; [exact A|]. split; [now apply Hall|exact C].
 Qed.
 
 (* every node reachable from the root's result node (inputs and subgraph attributes) lies in the traversal of a discovered graph *)
